@@ -1168,6 +1168,45 @@ func (r *dRun) loseReplacementNoSync() {
 	}
 }
 
+// candidateGone removes the first candidate (by name) of a command in flight from the cluster, together with its pods.
+func (r *dRun) candidateGone() {
+	w := r.b.W
+	cmds := r.queue.GetCommands()
+	sort.Slice(cmds, func(i, j int) bool { return cmds[i].Candidates[0].Name() < cmds[j].Candidates[0].Name() })
+	for _, cmd := range cmds {
+		if len(cmd.Candidates) < 2 {
+			continue
+		}
+		cn := cmd.Candidates[0]
+		nc := w.GetNodeClaim(cn.NodeClaim.Name)
+		if nc == nil {
+			continue
+		}
+		for _, p := range w.ListPods() {
+			if cn.Node != nil && p.Spec.NodeName == cn.Node.Name {
+				p := p
+				w.Remove(&p)
+			}
+		}
+		if cn.Node != nil {
+			n := &corev1.Node{ObjectMeta: metav1.ObjectMeta{Name: cn.Node.Name}}
+			var err error
+			w.Quiet(func() { err = w.Client.Get(w.Ctx, client.ObjectKeyFromObject(n), n) })
+			if err == nil {
+				w.Remove(n)
+			}
+			if bn := r.b.Nodes[cn.Node.Name]; bn != nil {
+				bn.Node = nil
+			}
+		}
+		delete(w.Provider.Instances, nc.Status.ProviderID)
+		w.Remove(nc)
+		r.c.Class("candidate_gone")
+		break
+	}
+	w.Sync()
+}
+
 // finishDeleting completes the termination of every deleting NodeClaim: its pods leave, Node and NodeClaim disappear.
 func (r *dRun) finishDeleting() {
 	w := r.b.W
